@@ -282,7 +282,7 @@ type workerProc struct {
 }
 
 func startWorker(mapMode int) (*workerProc, error) {
-	cmd := exec.Command(os.Args[0], "worker")
+	cmd := exec.Command("/proc/self/exe", "worker")
 	cmd.Env = append(os.Environ(), "VERIF_MAPMODE="+strconv.Itoa(mapMode), "GOMAXPROCS=1")
 	cmd.Stderr = os.Stderr
 	in, err := cmd.StdinPipe()
